@@ -39,7 +39,7 @@ CHECKS["C04"] = {
     "technique": T_EXH,
 }
 CHECKS["C05"] = {
-    "text": "A finite product is enumerated completely: 39 probe functions (every signature {V,L,N}^n -> {V,L,N}, n<=2) + the 5 built-ins + an unknown name, each in 14 syntactic positions (test, under !, inside &&/||, in parentheses, either comparand, argument of a V/L/N parameter, inside nested filters) with 21 argument shapes per parameter; wrong arities; 400 operand pairs x 2 comparison operators; integers at bound-1/bound/bound+1 (and the negated bounds) of 12 configured ranges (symmetric, asymmetric, one-sided, three reaching beyond 2**53; configured on a subclass and on a plain instance) in 14 index/slice slots; the standard functions once more with every query on a fresh environment. compile() on an environment holding the probe registry must succeed exactly when the reference typing judgement says so, must raise a JSONPathError otherwise, and must never call a registered function. 186 538 queries per run.",
+    "text": "A finite product is enumerated completely: 39 probe functions (every signature {V,L,N}^n -> {V,L,N}, n<=2) + the 5 built-ins + an unknown name, each in 14 syntactic positions (test, under !, inside &&/||, in parentheses, either comparand, argument of a V/L/N parameter, inside nested filters) with 21 argument shapes per parameter; wrong arities; 400 operand pairs x 2 comparison operators; integers at bound-1/bound/bound+1 (and the negated bounds) of 12 configured ranges (symmetric, asymmetric, one-sided, three reaching beyond 2**53; configured on a subclass and on a plain instance) in 14 index/slice slots; the standard functions once more with every query on a fresh environment; one-parameter probes and standard functions on environments whose registry was installed by rebinding the attribute or by a subclass with a dict of its own. compile() on an environment holding the probe registry must succeed exactly when the reference typing judgement says so, must raise a JSONPathError otherwise, and must never call a registered function. 186 538 queries per run.",
     "ref": "DESIGN.md section 5, C05",
     "note": "Trusted: mc/ref/typing.py (RFC 2.4.3) checked against the RFC well-typedness table in the self-test; R1 re-checks grammar membership of every reported query.",
     "technique": T_EXH,
@@ -93,7 +93,7 @@ CHECKS["C17"] = {
     "technique": "stateless exploration of the choice tree of the real code (enumerating random source), exact set comparison with reference model",
 }
 CHECKS["C18"] = {
-    "text": "Limits 1..5 x both modes x every container skeleton with <=6 (7) containers in 3 container and 2 leaf flavours; chains at nesting limit-1..limit+2 for limits 1..5, 100, 200 with array/object/alternating links, scalar/empty bottoms and the deep branch alone/first/middle/last; 12 cyclic structures (self-loops, 2-/3-cycles, cycles below a prefix, branching cycles for limits <=4). Deterministic mode: one execution per input; nondeterministic mode: the complete choice tree for limits <=4 (5) (capped at 3 000 / 20 000 executions per input, cap hits are reported) and all leaves within 1 (2) deviations above. nesting <= limit => the reference result; otherwise JSONPathRecursionError within a 5 s watchdog and a 200 000-node budget, never RecursionError. Histories: every sequence of <=3 applications (complete run at the limit / too deep / cyclic / shallow, find_one, iterator abandoned after 1 or 3 items) of ONE compiled query, 4 queries x 3 (6) limits x both modes: every complete run must behave like that of a fresh query; one operation grows ONE document object in place between applications.",
+    "text": "Limits 1..5 x both modes x every container skeleton with <=6 (7) containers in 3 container and 2 leaf flavours; chains at nesting limit-1..limit+2 for limits 1..5, 100, 200, 450, 700 with array/object/alternating links, scalar/empty bottoms and the deep branch alone/first/middle/last; 12 cyclic structures (self-loops, 2-/3-cycles, cycles below a prefix, branching cycles for limits <=4). Deterministic mode: one execution per input; nondeterministic mode: the complete choice tree for limits <=4 (5) (capped at 3 000 / 20 000 executions per input, cap hits are reported) and all leaves within 1 (2) deviations above. nesting <= limit => the reference result; otherwise JSONPathRecursionError within a 5 s watchdog and a 200 000-node budget, never RecursionError. Histories: every sequence of <=3 applications (complete run at the limit / too deep / cyclic / shallow, find_one, iterator abandoned after 1 or 3 items) of ONE compiled query, 4 queries x 3 (6) limits x both modes: every complete run must behave like that of a fresh query; one operation grows ONE document object in place between applications.",
     "ref": "DESIGN.md section 5, C18",
     "note": "Limits above 200 are not explored (the deterministic visitor recurses ~2 Python frames per level; configured limits of several hundred reach the interpreter's own limit - recorded in DESIGN.md as out of the explored range). Branching cycles only for small limits.",
     "technique": "bounded-exhaustive enumeration of shapes x limits; choice-tree exploration of the real code in nondeterministic mode (deviation-bounded for large limits)",
